@@ -87,6 +87,9 @@ def check_t1(chk, mods, K, min_n=2):
                             chk.ob("T1.cyclic-only", iid, True, "equality test of time values", inst.loc, name)
                     else:
                         ok = cc[1] in ("slt", "sle", "sgt", "sge", "eq", "ne") and (cc[3][0] == "c" or cc[2][0] == "c")
+                        if not ok and cc[3][0] == "c" and cc[3][1] == 32 and (cc[1], cc[3][2]) in (
+                                ("ugt", 0x7fffffff), ("uge", 0x80000000), ("ult", 0x80000000), ("ule", 0x7fffffff)):
+                            ok = True       # an unsigned comparison with 2^31 is a test of the sign bit of the difference
                         chk.ob("T1.cyclic-only", iid, ok,
                                "a time difference is compared %s" % ("signed against a constant" if ok else
                                                                      "with '%s': a cyclic difference must be interpreted as signed" % cc[1]),
@@ -138,21 +141,51 @@ def le0(cc, taken):
 def check_t3(chk, m, K):
     fn, ps = fib.fn_paths(m, "fibre_timeout")
     chk.note_fn(fn)
+    from ..domains.bdd import BDD, BV
+    from ..domains.bvexec import expr_bv, Top
     for p in ps:
         pid = "fibre_timeout " + "->".join(b.lstrip("%") for b in p.blocks)
+        # the expiry decision as a Boolean function of r = duetime - now (32 bits): the path must imply r <=s 0 or r >s 0
+        B = BDD()
+        bv = BV(B)
+        rv = bv.inputs(0, 32)
+
+        def is_now(x):
+            x = strip_casts(x)
+            return x[0] == "ld" and x[1] == K.kptr("now")
+
+        def atom(x):
+            if x[0] == "call" and x[1] == "cyclecmp32" and strip_casts(x[2][0]) == ("arg", 0) and is_now(x[2][1]):
+                return rv
+            if x[0] == "b" and x[1] == "sub" and x[2] == 32 and strip_casts(x[3]) == ("arg", 0) and is_now(x[4]):
+                return rv
+            return None
+        pc = 1
         expired = None
+        other = None
         for c, taken, inst in p.conds:
-            cc = strip_casts(c)
-            r = le0(cc, taken)
-            if r is None:
-                if cc[0] == "icmp" and time_kind(cc[2], K, fn) == "diff":
-                    expired = ("other", fmt(cc))
+            if not (paths.contains(c, lambda x: x == ("arg", 0)) or paths.contains(c, is_now)):
                 continue
-            x = strip_casts(r[0])
-            is_diff = (x[0] == "call" and x[1] == "cyclecmp32" and x[2][0] == ("arg", 0) and x[2][1][0] == "ld" and x[2][1][1] == K.kptr("now")) or \
-                      (x[0] == "b" and x[1] == "sub" and x[3] == ("arg", 0) and x[4][0] == "ld" and x[4][1] == K.kptr("now"))
-            if is_diff:
-                expired = r[1]
+            try:
+                v = expr_bv(c, bv, atom)
+            except (Top, KeyError, IndexError, TypeError):
+                other = fmt(strip_casts(c))[:60]
+                continue
+            bit = 0
+            for x in v:
+                bit = B.OR(bit, x)
+            pc = B.AND(pc, bit if taken else B.NOT(bit))
+        le0_ = B.OR(rv[31], bv.eq(rv, bv.const(0, 32)))
+        if other is not None:
+            expired = ("other", other)
+        elif pc != 1 and B.AND(pc, B.NOT(le0_)) == 0:
+            expired = True
+        elif pc != 1 and B.AND(pc, le0_) == 0:
+            expired = False
+        elif pc != 1:
+            asg = B.sat_one(B.AND(pc, le0_)) or {}
+            expired = ("other", "the test does not separate (duetime - now) <= 0 from > 0 as a signed difference; e.g. both outcomes "
+                       "contain differences such as %d" % sum((1 << i) for i in range(32) if asg.get(i)))
         ins = C01.insertion_sites(p, K)
         if expired is True:
             ok = p.ret is not None and p.ret[0] == "c" and p.ret[2] != 0 and not ins
